@@ -28,6 +28,8 @@ pub enum KindId {
     WithContext,
     WithContextMb,
     MapSpan,
+    Array3,
+    Bytes,
 }
 
 impl KindId {
@@ -45,11 +47,13 @@ impl KindId {
             KindId::WithContext => "with_context",
             KindId::WithContextMb => "with_context(multibyte)",
             KindId::MapSpan => "map_span",
+            KindId::Array3 => "&[char; 3]",
+            KindId::Bytes => "bytes::Bytes",
         }
     }
     pub fn from_name(s: &str) -> Option<KindId> {
         use KindId::*;
-        [Str, StrMb, Slice, Stream, BoxedStream, Mapped, MappedGapped, U8, Io, WithContext, WithContextMb, MapSpan].into_iter().find(|k| k.name() == s)
+        [Str, StrMb, Slice, Stream, BoxedStream, Mapped, MappedGapped, U8, Io, WithContext, WithContextMb, MapSpan, Array3, Bytes].into_iter().find(|k| k.name() == s)
     }
 }
 
@@ -96,6 +100,8 @@ pub struct E1Unit {
     /// differential unit: `grammars` holds pairs (2k, 2k+1)
     pub pair_mode: Option<e1::PairMode>,
     pub clone_mode: bool,
+    /// explicit input list (instead of all strings over `alphabet` up to `max_len`)
+    pub explicit_inputs: Option<Vec<Vec<Tok>>>,
 }
 
 #[derive(Default, Clone, Debug)]
@@ -182,7 +188,7 @@ pub fn run_e1_unit(u: &E1Unit, cx: &ShardCtx) -> UnitResult {
 }
 
 pub fn run_e1_unit_on(u: &E1Unit, cx: &ShardCtx, inputs: Option<Vec<Vec<Tok>>>) -> UnitResult {
-    let inputs = inputs.unwrap_or_else(|| cvm::enumerate::inputs(&u.alphabet, u.max_len));
+    let inputs = inputs.or_else(|| u.explicit_inputs.clone()).unwrap_or_else(|| cvm::enumerate::inputs(&u.alphabet, u.max_len));
     let mut acc = Acc::default();
     let skip = cx.skip.clone();
     let prog = |gi: usize| (cx.progress)(gi);
@@ -223,6 +229,9 @@ pub fn run_e1_unit_on(u: &E1Unit, cx: &ShardCtx, inputs: Option<Vec<Vec<Tok>>>) 
     counters.insert("empty_span_probes".into(), acc.stats.empty_spans);
     counters.insert("abandoned_alternatives".into(), acc.stats.backtracks);
     counters.insert("recoveries".into(), acc.stats.recoveries);
+    if matches!(u.kind, KindId::Stream | KindId::BoxedStream) {
+        counters.insert("stream_items_pulled".into(), e1::PULLS.with(|p| p.get()));
+    }
     for (k, v) in &acc.mismatch_by_cat {
         counters.insert(format!("mismatch_{k}"), *v);
     }
